@@ -3,6 +3,7 @@ package symex
 import (
 	"fmt"
 	"go/types"
+	"os"
 	"sort"
 	"strings"
 	"sync"
@@ -72,6 +73,7 @@ type Result struct {
 	SampleObl    []string
 	Recorded     []RecordedObl
 	ForkSites    map[string]int
+	InfeasibleDropped int
 }
 
 type RecordedObl struct {
@@ -241,15 +243,19 @@ func (e *Engine) choose(c *smt.Term) bool {
 		st.addPC(smt.Not(c))
 		return false
 	}
+	// every decision (also the one-sided ones) is recorded so that a sibling forked later in the
+	// same instruction replays the same sequence
 	ft, _ := e.sat(false, c)
 	if !ft {
 		// pc is satisfiable (invariant), so ¬c holds on this path; record it to help later slicing
 		st.addPC(smt.Not(c))
+		st.taken = append(st.taken, 0)
 		return false
 	}
 	ff, _ := e.sat(false, smt.Not(c))
 	if !ff {
 		st.addPC(c)
+		st.taken = append(st.taken, 1)
 		return true
 	}
 	e.Res.Transitions++
@@ -510,6 +516,7 @@ func (r *Result) merge(o *Result) {
 	r.States += o.States
 	r.Transitions += o.Transitions
 	r.Obligations += o.Obligations
+	r.InfeasibleDropped += o.InfeasibleDropped
 	r.Discharged += o.Discharged
 	for k, v := range o.Funcs {
 		r.Funcs[k] += v
@@ -718,7 +725,19 @@ func (e *Engine) unwind() {
 			st.events = append(st.events, "fatal-exit")
 			panic(pathEnd{"fatal-exit"})
 		}
-		_, m := e.sat(true)
+		ok, m := e.sat(true)
+		if !ok {
+			// the path condition is unsatisfiable: this panic is not reachable (a sliced feasibility
+			// check upstream was too coarse); drop the path instead of reporting it
+			if os.Getenv("VP_DEBUG") != "" {
+				fmt.Println("DEBUG infeasible panic path", label, pi.Msg, pi.Site)
+				for _, c := range st.pc {
+					fmt.Println("   pc:", c.String())
+				}
+			}
+			e.Res.InfeasibleDropped++
+			panic(pathEnd{"infeasible"})
+		}
 		e.violation("panic", label, pi.Msg+" at "+pi.Site, m)
 		panic(pathEnd{"panic"})
 	}
